@@ -360,7 +360,7 @@ def enumeration():
 @st.composite
 def random_case(draw):
     prog = draw(gen.program_st(max_features=1, max_items=4, min_items=1, faults=False,
-                               outcomes=["pass", "pass", "fail", "raise", "interrupt", "undefined", "pending"],
+                               outcomes=["pass", "pass", "fail", "raise", "interrupt", "undefined", "pending", "convert"],
                                cfg=st.just({})))
     bits = draw(st.integers(0, 7))
     prog["cfg"] = cap_cfg(bits)
